@@ -976,7 +976,14 @@ static void free_payloads(void) {
     for (int p = 1; p <= NP; p++) if (PAY[p].ptr && !(PAY[p].autofree && vp_watch_freed[PAY[p].watch])) { vp_free(PAY[p].ptr); PAY[p].ptr = NULL; }
 }
 static int threaded;
-static void on_alarm(int sig) { failed = 0; fail("core-hang", "program did not finish within its time limit (blocked or looping)"); }
+static void on_alarm(int sig) {
+    if (threaded) {      /* (several replaying threads: the signal may run on any of them) */
+        static const char m[] = "MISMATCH sig=core-hang replay=- :: a program of the threaded replay did not finish within 60 s (blocked or looping)\n";
+        if (write(1, m, sizeof m - 1) < 0) {}
+        _exit(1);
+    }
+    failed = 0; fail("core-hang", "program did not finish within its time limit (blocked or looping)");
+}
 
 static int gw_run(const int *prog, int n) {
     P = prog; PN = n; cursor = 0; depth = 0; failed = 0; last_ret = 0; double_close = 0;
@@ -992,7 +999,7 @@ static int gw_run(const int *prog, int n) {
     for (int k2 = 1; k2 <= NKEY; k2++) { ufd_r[k2] = ufd_w[k2] = -1; if (k2 <= nkeys) ufd_open(k2); }
     cur_state = gw_edges[prog[0]].src;
     in_program = 1;
-    if (!threaded) alarm(task_mode ? 8 : 20);
+    alarm(threaded ? 60 : task_mode ? 8 : 20);
     prog_loopable = loop_mode && program_loopable(prog, n);
     in_loop = 0;
     if (setup_name[0]) {
@@ -1015,7 +1022,7 @@ static int gw_run(const int *prog, int n) {
         if (!strcmp(e->act, "CbReturn")) { fail("core-cbreturn-at-top", "spec returns from a callback the library never entered"); break; }
         exec_action(e);
     }
-    alarm(0);
+    if (!threaded) alarm(0);      /* (threaded replay: the watchdog stays armed; it is re-armed by every program start) */
     if (task_mode && !failed) task_settle("");
     in_program = 0;
     kids_reap();
